@@ -33,7 +33,7 @@ Qed.
 Lemma has_key_strip k a b : strip a = strip b -> has_key k a = has_key k b.
 Proof.
   intros H. apply strip_kind in H. destruct H as [H1 H2].
-  unfold has_key, keyed, is_comment, is_white. rewrite H1, H2. reflexivity.
+  unfold has_key, keyed, is_comment, is_white, is_section. rewrite H1, H2. reflexivity.
 Qed.
 
 Lemma is_cent_strip a b : strip a = strip b -> is_cent a = is_cent b.
@@ -79,7 +79,7 @@ Proof.
   intros Hu HF H. apply Forall_forall. intros e He. unfold nonjunk.
   destruct (is_junk e) eqn:Ej; [|reflexivity]. exfalso.
   assert (Hk : keyed e = true).
-  { unfold is_junk in Ej. unfold keyed, is_comment, is_white. destruct (c_kind e); try discriminate; reflexivity. }
+  { unfold is_junk in Ej. unfold keyed, is_comment, is_white, is_section. destruct (c_kind e); try discriminate; reflexivity. }
   destruct (newest_wins vs out Hu H e He Hk) as (e0 & H0 & Hs).
   pose proof (first_entry_nonjunk _ _ _ HF H0) as Hn. unfold nonjunk in Hn.
   rewrite (is_junk_strip e0 e Hs) in Hn. congruence.
